@@ -6,9 +6,10 @@ import ClaripyProofs.Lemmas.VSA.NormalForm
 import ClaripyProofs.Lemmas.VSA.SextSound
 import ClaripyProofs.Lemmas.VSA.AndXor
 import ClaripyProofs.Lemmas.VSA.ConcatSound
+import ClaripyProofs.Lemmas.VSA.AshrSound
 /-!
 The structural soundness theorem of `convBV`/`convB` with the *proved* interval operations discharged:
-`add, sub, neg, not, and, or, xor, concat, zero_extend, sign_extend, extract, udiv, shl, lshr, union (If), ULT/ULE/UGT/UGE,
+`add, sub, neg, not, and, or, xor, concat, zero_extend, sign_extend, extract, udiv, shl, lshr, ashr, union (If), ULT/ULE/UGT/UGE,
 SLT/SLE/SGT/SGE`.
 The induction also carries constructor-normal form (`Nrm`), which the signed orderings need.  What is left as a hypothesis
 (`OpsRest`) is consulted only at nodes that use one of the remaining operations, so ASTs inside the proved fragment get
@@ -19,7 +20,7 @@ the operands is obtained from the concrete values of the sub-expressions.
 namespace Claripy.VSA
 
 def restBin : BinOp → Bool
-  | .mul | .urem | .ashr => true
+  | .mul | .urem => true
   | _ => false
 
 def signedCmp : CmpOp → Bool
@@ -245,6 +246,17 @@ theorem bin_proved (op : BinOp) (hop : restBin op = false) (a b r : SI) (o o' : 
     simp only [concBin, Option.some.injEq] at hv
     subst hv
     exact g2 x y hx hy
+  · -- ashr
+    simp only [applyBin] at h
+    obtain ⟨r1, h1, h⟩ := bind_ok _ _ _ h
+    have := pure_ok _ _ h
+    cases this
+    obtain ⟨g1, g2⟩ := ashr_sound a b r wa hab na wb h1
+    refine ⟨g1, ?_⟩
+    intro x y v hx hy hv
+    simp only [concBin, Option.some.injEq] at hv
+    subst hv
+    exact g2 x y hx hy
 
 /-! ### the proved operations return intervals in constructor-normal form -/
 
@@ -376,6 +388,12 @@ theorem bin_proved_nrm (op : BinOp) (hop : restBin op = false) (a b r : SI) (o o
     have := pure_ok _ _ h
     cases this
     unfold SI.rshiftLogical SI.rshiftLogicalRange at h1
+    exact overRange_nrm a _ _ _ r wa.1 hw h1
+  · simp only [applyBin] at h
+    obtain ⟨r1, h1, h⟩ := bind_ok _ _ _ h
+    have := pure_ok _ _ h
+    cases this
+    unfold SI.rshiftArith SI.rshiftArithRange at h1
     exact overRange_nrm a _ _ _ r wa.1 hw h1
 
 theorem or_true_of_left {a b : Bool} (h : a = true) : (a || b) = true := by simp [h]
